@@ -5,14 +5,13 @@ open AcqVerif.Channel
 
 set_option maxHeartbeats 8000000 in
 theorem DEnd.src (s : Nat) (cl : Client) (rs : DevState) : ∀ a ∈ srcActs s, ∀ st, a.guard st = true → TInv s st cl rs → DUse s st cl → DLog s st cl →
-    DId s st cl → st.cam.emptyEvery = 0 → 0 < st.F → DEnd s st cl → DEnd s (a.upd st) cl := by
-  intro a ha st hg ht hu hl hi he hF h
-  obtain ⟨k1, k2, k3, k4, k5, k6, k7, k8, k9, k10, k11, k12, k13⟩ := hu
+    DId s st cl → 0 < st.F → DEnd s st cl → DEnd s (a.upd st) cl := by
+  intro a ha st hg ht hu hl hi hF h
+  obtain ⟨k1, k2, k3, k4, k5, k6, k7, k8, k9, k10, k11, k12, k13, k14⟩ := hu
   obtain ⟨d1, d2, d3, d4⟩ := hl
   obtain ⟨i1, i2, i3, i3', i4, i4', i5, i6, i7⟩ := hi
   obtain ⟨e1, e2, e2a, e3, e3a, e3b, e4, e5, e6, e7, e8, w2, w4, w5, w6, w8, wa, e10, e10a, e10b, e11, e12⟩ := h
   have tS := ht.start_src; have hs8 := stage_le cl.pc s
-  have hne : camEmpty st = false := by simp [camEmpty, he]
   have hwf := cv_wmap_fail st.sinkCh st.F
   have hwo := fun b => cv_wmap_ok k1 st.F b
   have hcm := cv_wcommit k1
@@ -33,10 +32,30 @@ theorem DEnd.src (s : Nat) (cl : Client) (rs : DevState) : ∀ a ∈ srcActs s, 
     constructor
     all_goals (try simp only [hs, srcComplete])
     all_goals (first | assumption | ((try simp only [srcFin, srcInLoop, snkErr, srcComplete] at *) <;> grind))
+  -- src.abort
+  case inr.inr.inr.inr.inr.inr.inr.inr.inr.inr.inr.inr.inr.inr.inr.inr.inr.inl =>
+    have hsh : srcHold st.src.pc = true := by (have := hg.1; simp_all [srcHold])
+    have hp : (cv st.sinkCh).pending = true := by
+      rcases k7 hsh with h | h
+      · exact h
+      · have := hg.1; rw [h.1] at this; cases this
+    obtain ⟨hok, hcv⟩ := cv_wabort k1 hp
+    constructor
+    all_goals (try simp only [hcv, logpos])
+    all_goals (first | assumption | ((try simp only [srcFin, srcInLoop, snkErr, srcComplete] at *) <;> grind))
   -- src.commit
   case inr.inr.inr.inr.inr.inr.inr.inr.inr.inr.inr.inr.inr.inr.inr.inr.inr.inr.inl =>
     have hsh : srcHold st.src.pc = true := by (have := hg.1; simp_all [srcHold])
-    have hp : (cv st.sinkCh).pending = true := k7 hsh
+    by_cases hcn : st.src.cur = none
+    · -- the unmap after an aborted write (empty frame): nothing in flight, nothing changes
+      have hs : (step st.sinkCh Op.wcommit).1 = st.sinkCh := wcommit_idle (k14 hg.1 hcn)
+      constructor
+      all_goals (try simp only [hs, hcn, addFrame, Option.isSome_none, Bool.false_and, Bool.or_false, ite_false, Nat.add_zero, logpos])
+      all_goals (first | assumption | ((try simp only [srcFin, srcInLoop, snkErr, srcComplete] at *) <;> grind))
+    have hp : (cv st.sinkCh).pending = true := by
+      rcases k7 hsh with h | h
+      · exact h
+      · exact absurd h.2 hcn
     obtain ⟨hok, hcv⟩ := hcm hp
     have hpc : st.src.pc ≠ .done := by rw [hg.1]; simp
     have hst : ¬ (1 ≤ stage cl.pc s) := by intro h1; exact hpc (tS h1 hs8)
@@ -59,7 +78,7 @@ theorem DEnd.src (s : Nat) (cl : Client) (rs : DevState) : ∀ a ∈ srcActs s, 
 set_option maxHeartbeats 8000000 in
 theorem DEnd.flt (s : Nat) (cl : Client) (rs : DevState) : ∀ a ∈ fltActs, ∀ st, a.guard st = true → TInv s st cl rs → DUse s st cl → DEnd s st cl → DEnd s (a.upd st) cl := by
   intro a ha st hg ht hu h
-  obtain ⟨k1, k2, k3, k4, k5, k6, k7, k8, k9, k10, k11, k12, k13⟩ := hu
+  obtain ⟨k1, k2, k3, k4, k5, k6, k7, k8, k9, k10, k11, k12, k13, k14⟩ := hu
   obtain ⟨e1, e2, e2a, e3, e3a, e3b, e4, e5, e6, e7, e8, w2, w4, w5, w6, w8, wa, e10, e10a, e10b, e11, e12⟩ := h
   have tF := ht.start_flt; have hs8 := stage_le cl.pc s
   have hf : (step st.filtCh (.rmap 0)).1 = st.filtCh := filt_rmap k2
@@ -75,7 +94,7 @@ theorem DEnd.snk (s : Nat) (cl : Client) (rs : DevState) : ∀ a ∈ snkActs s, 
   have i4 := hi.cur
   have t1 := ht.start_snk; have t3 := ht.joined_snk; have hs8 := stage_le cl.pc s
   have hch := clHolds0_stop cl.pc s
-  obtain ⟨k1, k2, k3, k4, k5, k6, k7, k8, k9, k10, k11, k12, k13⟩ := hu
+  obtain ⟨k1, k2, k3, k4, k5, k6, k7, k8, k9, k10, k11, k12, k13, k14⟩ := hu
   obtain ⟨d1, d2, d3, d4⟩ := hl
   obtain ⟨e1, e2, e2a, e3, e3a, e3b, e4, e5, e6, e7, e8, w2, w4, w5, w6, w8, wa, e10, e10a, e10b, e11, e12⟩ := h
   have hn1 := nrd_pos k3
